@@ -765,7 +765,11 @@ func removedEntryWasNoop(b *chaingen.Block) bool {
 	if len(a) == 0 {
 		return false
 	}
-	k := refstate.SortedFelts(b.SU.StateDiff.StorageDiffs[a[0]])[0]
+	ks := refstate.SortedFelts(b.SU.StateDiff.StorageDiffs[a[0]])
+	if len(ks) == 0 {
+		return false
+	}
+	k := ks[0]
 	var old felt.Felt
 	if c := b.Pre.Contracts[a[0]]; c != nil {
 		old = c.Storage[k]
